@@ -1,11 +1,17 @@
 use crate::{reader::AseReader, AsepriteParseError, Result};
-use nohash::IntMap;
+use std::collections::BTreeMap;
 
 /// The color palette embedded in the file.
 #[derive(Debug)]
 pub struct ColorPalette {
-    //entries: Vec<ColorPaletteEntry>,
-    pub(crate) entries: IntMap<u32, ColorPaletteEntry>,
+    // Entries by color index. The indices come straight from the file, so
+    // this must not be a table hashed by the raw index: indices that are equal
+    // modulo a power of two would all collide in it and make every lookup
+    // linear in the palette size. Pixels can only refer to the first 256
+    // indices; those are kept in a plain table (constant-time lookup for every
+    // pixel), all others in an ordered map.
+    low: Vec<Option<ColorPaletteEntry>>,
+    high: BTreeMap<u32, ColorPaletteEntry>,
 }
 
 /// A single entry in a [ColorPalette].
@@ -17,9 +23,42 @@ pub struct ColorPaletteEntry {
 }
 
 impl ColorPalette {
+    pub(crate) fn new() -> Self {
+        ColorPalette {
+            low: Vec::new(),
+            high: BTreeMap::new(),
+        }
+    }
+
+    // Adds an entry, replacing an earlier entry with the same id.
+    pub(crate) fn insert(&mut self, entry: ColorPaletteEntry) {
+        let id = entry.id as usize;
+        if id < 256 {
+            if self.low.len() <= id {
+                self.low.resize_with(id + 1, || None);
+            }
+            self.low[id] = Some(entry);
+        } else {
+            self.high.insert(entry.id, entry);
+        }
+    }
+
+    // Adds all entries of `other`, replacing entries with the same id.
+    pub(crate) fn extend(&mut self, other: ColorPalette) {
+        for entry in other.low.into_iter().flatten() {
+            self.insert(entry);
+        }
+        self.high.extend(other.high);
+    }
+
+    // All entries in order of their ids.
+    pub(crate) fn iter(&self) -> impl Iterator<Item = &ColorPaletteEntry> {
+        self.low.iter().flatten().chain(self.high.values())
+    }
+
     /// Total number of colors in the palette.
     pub fn num_colors(&self) -> u32 {
-        self.entries.len() as u32
+        self.iter().count() as u32
     }
 
     /// Look up entry at given index.
@@ -28,7 +67,13 @@ impl ColorPalette {
     /// go from `0..num_colors()` but there doesn't seem to be a way to violate
     /// this constraint using the Aseprite GUI.
     pub fn color(&self, index: u32) -> Option<&ColorPaletteEntry> {
-        self.entries.get(&index)
+        if index < 256 {
+            self.low
+                .get(index as usize)
+                .and_then(|entry| entry.as_ref())
+        } else {
+            self.high.get(&index)
+        }
     }
 
     pub(crate) fn validate_indexed_pixels(&self, indexed_pixels: &[u8]) -> Result<()> {
@@ -102,7 +147,7 @@ pub(crate) fn parse_chunk(data: &[u8]) -> Result<ColorPalette> {
     // `last - first + 1` overflows u32 for the range 0..=u32::MAX.
     let count = (last_color_index - first_color_index) as u64 + 1;
     //let mut entries = Vec::with_capacity(count as usize);
-    let mut entries = IntMap::default();
+    let mut palette = ColorPalette::new();
 
     for id in 0..count {
         let id = id as u32;
@@ -118,17 +163,14 @@ pub(crate) fn parse_chunk(data: &[u8]) -> Result<ColorPalette> {
             None
         };
         let id = id + first_color_index;
-        entries.insert(
+        palette.insert(ColorPaletteEntry {
             id,
-            ColorPaletteEntry {
-                id,
-                rgba8: [red, green, blue, alpha],
-                name,
-            },
-        );
+            rgba8: [red, green, blue, alpha],
+            name,
+        });
     }
 
-    Ok(ColorPalette { entries })
+    Ok(palette)
 }
 
 // Note: we want to map `0 -> 0` and `63 -> 255` and evenly for the in-between
@@ -158,7 +200,7 @@ pub(crate) fn parse_old_chunk_04(data: &[u8]) -> Result<ColorPalette> {
 
     let packet_count = reader.word()?;
 
-    let mut entries = IntMap::default();
+    let mut palette = ColorPalette::new();
     let mut skip = 0;
 
     for _ in 0..packet_count {
@@ -174,18 +216,15 @@ pub(crate) fn parse_old_chunk_04(data: &[u8]) -> Result<ColorPalette> {
             let red = reader.byte()?;
             let green = reader.byte()?;
             let blue = reader.byte()?;
-            entries.insert(
+            palette.insert(ColorPaletteEntry {
                 id,
-                ColorPaletteEntry {
-                    id,
-                    rgba8: [red, green, blue, 255],
-                    name: None,
-                },
-            );
+                rgba8: [red, green, blue, 255],
+                name: None,
+            });
         }
     }
 
-    Ok(ColorPalette { entries })
+    Ok(palette)
 }
 
 pub(crate) fn parse_old_chunk_11(data: &[u8]) -> Result<ColorPalette> {
@@ -193,7 +232,7 @@ pub(crate) fn parse_old_chunk_11(data: &[u8]) -> Result<ColorPalette> {
 
     let packet_count = reader.word()?;
 
-    let mut entries = IntMap::default();
+    let mut palette = ColorPalette::new();
     let mut skip = 0;
 
     for _ in 0..packet_count {
@@ -209,16 +248,13 @@ pub(crate) fn parse_old_chunk_11(data: &[u8]) -> Result<ColorPalette> {
             let red = scale_6bit_to_8bit(reader.byte()?)?;
             let green = scale_6bit_to_8bit(reader.byte()?)?;
             let blue = scale_6bit_to_8bit(reader.byte()?)?;
-            entries.insert(
+            palette.insert(ColorPaletteEntry {
                 id,
-                ColorPaletteEntry {
-                    id,
-                    rgba8: [red, green, blue, 255],
-                    name: None,
-                },
-            );
+                rgba8: [red, green, blue, 255],
+                name: None,
+            });
         }
     }
 
-    Ok(ColorPalette { entries })
+    Ok(palette)
 }
